@@ -19,7 +19,8 @@ Inductive param :=
 | PInts (l : list N)
 | PStrs (l : list string)
 | PField (f : field)
-| PNoneP.
+| PNoneP
+| PSInt (z : Z).             (* signed immediate: produced only for the classes of Parse.signed_imm_class (frame_dig / frame_bury) *)
 
 Inductive instr :=
 | IPragma (v : N)
@@ -190,6 +191,7 @@ Definition str_of_param (p : param) : string :=
   | PStrs l => join " " l
   | PField f => str_of_field f
   | PNoneP => "None"
+  | PSInt z => string_of_Z z
   end.
 Definition list_of_param (p : param) : list string :=
   match p with
